@@ -10,6 +10,7 @@
 //!             as a \uXXXX escape
 //! result [parsed, verified, [] | [canonical form of the parsed struct's `signed` part]]
 //! case [12, 1]: the Ed25519 pool keys, [[key id, key JSON text] ...]
+//! case [12, 3]: the key ids of all pool keys, by index
 use crate::c11::{canon, decode, Jv};
 use crate::repo::KeyPool;
 use crate::util::*;
@@ -162,6 +163,8 @@ pub fn run(pool: &KeyPool, op: u64, a: &[Value]) -> Value {
             write(&env, SIG_PLACEHOLDER, style, 0, &mut text);
             of_str(&text)
         }
+        // the ids of all pool keys (Ed25519, ECDSA, RSA), by index
+        3 => Value::Array((0..pool.keys.len()).map(|i| of_str(&pool.keys[i].id)).collect()),
         _ => json!([999]),
     }
 }
